@@ -5,7 +5,7 @@ from __future__ import annotations
 import ast
 
 from ..astutil import inside
-from ..core import walk_own
+from ..core import delayed_task_of, walk_own
 from ..events import container_events, name_aug_events, root_name
 from ..cfg import CFG
 from ..core import AnalysisError, const_value
@@ -963,8 +963,7 @@ def _parse_in_chunks(ctx):
     pT = Terms(DefUse(prog, pic), phi_vars=True)
     p_ps, p_tr = pic.params[0], pic.params[1]
     task = [n for n in ast.walk(pic.node) if isinstance(n, ast.Call)
-            and isinstance(n.func, ast.Call)
-            and ast.unparse(n.func) == "delayed(get_rows_from_dataframe)"]
+            and delayed_task_of(prog, pic, n, "get_rows_from_dataframe")]
     ok_a = False
     why = "task not found"
     TRAIN = None
